@@ -282,3 +282,6 @@ PLAN["C15"]["thorough"]["tests"][0]["shards"] = 1
 PLAN["C15"]["rule"] += ("; TestC15Decode: byte streams of 1-4 reference-encoded frames with one generated mutation (truncation, byte flip, junk before/behind, bad magic) decoded by Wire.Read and by "
                         "the reference decoder: same frames or rejection, wrong magic never accepted (a native go-fuzz entry FuzzC15WireRead exists for manual campaigns; it is not part of the tiers because "
                         "the pre-built test binary carries no coverage instrumentation)")
+
+PLAN["C07"]["quick"]["tests"].append({"run": "TestC07Kill", "shards": 3, "checks": 1, "timeout": 140, "shrink": "1s"})
+PLAN["C07"]["thorough"]["tests"].append({"run": "TestC07Kill", "shards": 6, "checks": 12, "timeout": 860, "shrink": "1s"})
